@@ -43,6 +43,7 @@ def applicable(model, kinds, req):
     for i, c in enumerate(cmds):
         ks = kinds.get(c["cmd"], {})
         sites.append(("unknown-command", i, None, None))
+        sites.append(("unknown-command", i, None, "display-name"))
         if i > 0:
             sites.append(("duplicate-result", i, None, None))
         for p in c["args"]:
@@ -93,6 +94,9 @@ def inject(model, site, rng):
     if kind == "unknown-command":
         c["cmd_real"] = c["cmd"]
         c["cmd"] = "NoSuchCommand_%d" % i
+        if variant == "display-name":
+            # the name under which a command is *displayed* (or a near miss of its name) is not its name
+            c["cmd"] = {"EEMSRead": "Read", "EEMSWrite": "Write"}.get(c["cmd_real"], rng.choice(["Read", "Write", c["cmd_real"] + "s", c["cmd_real"].lower() + "_"]))
         exp.update(error="CommandDoesNotExist", where="cmd", attrs={"name": c["cmd"]})
     elif kind == "duplicate-result":
         j = rng.randrange(i)
